@@ -54,3 +54,36 @@ Print Assumptions C13_validated_aggregate_never_panics.
 Theorem C13_unvalidated_median_refuted : exists vals, median_res vals = Panic.
 Proof. exact median_res_nil_refuted. Qed.
 Print Assumptions C13_unvalidated_median_refuted.
+
+(* 5. RMN controller: for every configuration, schedule and list of peer responses / timer / context events
+      (arbitrary bodies: nil sub-messages, short roots, wrong kinds, garbage) the repaired controller never panics,
+      and has returned by the event at which the context is done (proved in Proofs/RmnP.v for C06). *)
+Require Verif.Model.Rmn Verif.Proofs.RmnP.
+Theorem C13_rmn_never_panics : forall edv vrs cfg sc,
+  NoDup (map Rmn.sg_node (Rmn.c_signers cfg)) ->
+  forall evs l, Rmn.run edv vrs Rmn.fixed cfg sc evs <> Rmn.GFinal Rmn.Crash l.
+Proof. exact RmnP.total_no_panic. Qed.
+Print Assumptions C13_rmn_never_panics.
+
+Theorem C13_rmn_returns_by_deadline : forall edv vrs cfg sc pre post,
+  exists f l, Rmn.run edv vrs Rmn.fixed cfg sc (pre ++ [Rmn.CtxDone]) = Rmn.GFinal f l /\
+              Rmn.run edv vrs Rmn.fixed cfg sc (pre ++ Rmn.CtxDone :: post) = Rmn.GFinal f l.
+Proof. exact RmnP.total_terminates. Qed.
+Print Assumptions C13_rmn_returns_by_deadline.
+
+(* 6. Observation truncation (execute GetMessages phase): for every size function, limit and chain-pick order the
+      repaired truncation returns an observation or an error — no panic, no endless loop (Proofs/TruncateP.v, C17);
+      the pre-repair slice surgery panicked. *)
+Require Verif.Model.Truncate Verif.Proofs.TruncateP.
+Theorem C13_truncate_total : forall size max pick o,
+  (forall n o, Truncate.t_commits o <> [] -> In (pick n o) (Truncate.tkeys (Truncate.t_commits o))) ->
+  NoDup (Truncate.tkeys (Truncate.t_commits o)) ->
+  (exists o', Truncate.truncate size max pick o = Ok o') \/ Truncate.truncate size max pick o = Err.
+Proof. exact TruncateP.truncate_total. Qed.
+Print Assumptions C13_truncate_total.
+
+Theorem C13_truncate_unfixed_refuted :
+  exists o c, Truncate.truncate_chain_unfixed o c = Panic /\
+              exists size max pick, Truncate.truncate_unfixed size max pick o = Panic.
+Proof. exact TruncateP.truncate_chain_unfixed_panics. Qed.
+Print Assumptions C13_truncate_unfixed_refuted.
